@@ -27,6 +27,12 @@ PATH_NS = ['', '/', 'a//b', 'a b', 'a"<', '\u00e9']
 _IP_NS = [['ipath', 'Foo', [['k', ['s', 'x']]], ns, h] for ns in PATH_NS for h in (None, 'h')]
 _CP_NS = [['cpath', 'Foo', ns, h] for ns in PATH_NS for h in (None, 'h')]
 
+# array-valued method parameters: every ordered pair of item kinds (homogeneous, heterogeneous, with
+# NULL entries) - an array that CIM-XML cannot carry must be refused locally
+_ITEM_KINDS = [S('a'), ['i', 'uint8', 1], ['b', True], ['dt', D.DATETIMES[0]], ['r', 'real64', (1.5).hex()],
+               IPATH0, ['cpath', 'Foo', 'a', 'h'], INST0, CLASS0, N]
+_PAIR_ARRAYS = [['a', [['t', [S('PA'), ['a', [x, y]]]]]] for x in _ITEM_KINDS for y in _ITEM_KINDS]
+
 DOM = {
     'ClassName': [S('Foo'), ['cpath', 'Foo', None, None], ['cpath', 'Foo', 'a/b', None],
                   ['cpath', 'Foo', 'a', 'h']] + [S(w) for w in WEIRD] + _CP_NS,
@@ -115,7 +121,7 @@ DOM = {
                       ['param', 'E', 'string', {'value': INST0, 'embedded_object': 'instance'}]]],
                ['a', [['t', [S('a b'), S('x')]]]], ['a', [['t', [S('P'), S('a\x01')]]]],
                ['a', [['t', [S('P'), S('\ud800')]]]], ['a', [['t', [S('I'), ['i', None, 5]]]]],
-               ['a', [['t', [S('Fl'), ['r', None, (1.5).hex()]]]]]],
+               ['a', [['t', [S('Fl'), ['r', None, (1.5).hex()]]]]]] + _PAIR_ARRAYS,
     'NewIndication': [['inst', 'CIM_AlertIndication', [['prop', 'Description', S('d'), {}]], None],
                       ['inst', 'CIM_AlertIndication', [['prop', 'p', S('a\x01'), {}]], None],
                       ['inst', 'a b', [], None], INST0P],
